@@ -63,6 +63,7 @@ type FuncContract struct {
 	ModGhost []string // ghost variables the function may modify (trusted functions)
 	ModArgs  []string // pointer parameters whose pointee may be arbitrarily modified (trusted externals)
 	ModAll   bool     // trusted function may modify any modelled heap location
+	NoEffects bool    // assumed to leave every modelled heap location unchanged (noverify functions; listed in the evidence)
 	NoVerify bool     // contract used at call sites only (declared but body check skipped, counts as assumption)
 	File     string
 	Line     int
@@ -121,7 +122,7 @@ func NewSpecs() *Specs {
 	return &Specs{Funcs: map[string]*FuncContract{}, Spec: map[string]*SpecFunc{}, Axioms: map[string]*Axiom{}, Ghost: map[string]*GhostVar{}, Consts: map[string]string{}}
 }
 
-var kwRe = regexp.MustCompile(`^(func|iface|spec|macro|axiom|lemma|ghost|effectfree|property|requires|ensures|loop|let|trusted|pure|inline|noinline|safe|uses|modifies|noverify|at|sets|local|reveals|opaque|witness|assumes)\b`)
+var kwRe = regexp.MustCompile(`^(func|iface|spec|macro|axiom|lemma|ghost|effectfree|property|requires|ensures|loop|let|trusted|pure|inline|noinline|safe|uses|modifies|noverify|noeffects|at|sets|local|reveals|opaque|witness|assumes)\b`)
 
 // LoadFile parses one contract file. pkgPath is the import path used for
 // unqualified function names ("" for .spec files, which use full paths).
@@ -340,6 +341,8 @@ func (s *Specs) LoadFile(path, pkgPath string) error {
 			cur.Trusted = true
 		case "noverify":
 			cur.NoVerify = true
+		case "noeffects":
+			cur.NoEffects = true
 		case "pure":
 			cur.Pure = true
 		case "inline":
